@@ -47,6 +47,39 @@ Verdict prop(Tape& t, Run& run) {
 		else
 			c.why = "generated graph cannot be saved";
 	}
+	else if (t.peek() >= 0xC0 && t.peek() < 0xD0) {
+		// a sample whose first texture path was replaced by an untidy one (folder prefixes, doubled and mixed
+		// separators, blanks) and raw-saved: loading cleans the path, and what is written must then be stable
+		t.u8();
+		auto& cp = corpus(run.args.corpus);
+		if (!cp.empty()) {
+			static const char* toks[] = {"Data", "data", "\\", "/", " ", "textures", "Textures", "a", "x.dds", ".", "\\\\", "C:"};
+			const auto& f = cp[t.u8() % cp.size()];
+			NifFile g;
+			std::string path;
+			uint32_t n = 1 + t.u8() % 7;
+			for (uint32_t i = 0; i < n; i++)
+				path += toks[t.u8() % 12];
+			if (loadBytes(g, f.bytes) == 0) {
+				auto shapes = g.GetShapes();
+				if (!shapes.empty())
+					g.SetTextureSlot(shapes[0], path, 0);
+				if (!shapes.empty() && saveBytes(g, c.bytes, rawOpts()) == 0) {
+					c.ok = true;
+					c.kind = "sample+path";
+					c.label = f.name;
+					auto mf = mini::parse(c.bytes);
+					c.version = mf.ver.tag();
+					c.populated = true;
+					c.hash = fnv1a(c.bytes);
+					c.payloadSize = c.bytes.size();
+					c.forced = "texture path '" + path + "'";
+				}
+			}
+		}
+		if (!c.ok)
+			c.why = "sample without shapes";
+	}
 	else
 		c = decodeFileCase(t, run, true, true);
 	if (!c.ok) {
@@ -117,6 +150,18 @@ void deterministic(Run& run, const std::function<void(const std::vector<uint8_t>
 	enumerateFileCases(run, feed, th ? 8 : 3);
 	enumerateSweep(run, feed, th ? 24 : 8, th ? 32 : 24, th ? 8 : 3);
 	enumerateUnknownCases(run, feed);
+	// every sample x a few untidy texture paths (token indices into the table of the 0xC0 source)
+	{
+		size_t n = corpus(run.args.corpus).size();
+		static const std::vector<std::vector<uint8_t>> paths = {
+			{0, 2, 0, 2, 7}, {1, 2, 4, 7}, {11, 2, 0, 2, 5, 2, 7}, {5, 10, 7}, {2, 4, 6, 2, 8}, {0, 3, 5, 2, 2, 8}, {4, 5, 2, 7, 4}};
+		for (size_t i = 0; i < n; i++)
+			for (auto& p : paths) {
+				std::vector<uint8_t> tape = {0xC0, static_cast<uint8_t>(i), static_cast<uint8_t>(p.size() - 1)};
+				tape.insert(tape.end(), p.begin(), p.end());
+				feed(tape);
+			}
+	}
 	// generated scene graphs: six versions x constant-byte tapes (the ones = 3 mod 4 carry the deep loose chain)
 	for (uint8_t v = 0; v < 6; v++)
 		for (uint8_t pat : {0x00, 0x03, 0x07, 0x63, 0xA3, 0xC7, 0xFF, 0x55, 0x9B}) {
@@ -135,7 +180,7 @@ int main(int argc, char** argv) {
 	h.deterministic = deterministic;
 	h.maxTape = 2000;
 	h.quickCases = 25000;
-	h.thoroughCases = 800000;
+	h.thoroughCases = 400000;
 	h.rule = "case = file F (26 samples; single synthesised subject of every registered type x 14 versions from pattern "
 			 "and rapidcheck tapes; multi-block synthesised files); checked: raw fixed point O2==O1 and default-save "
 			 "convergence S3==S2==S4. Non-trivial = accepted file whose subject payload is longer than the all-zero-tape "
